@@ -41,6 +41,18 @@ Entry points (round 3): "a model spectrum" is what ANY evaluating entry point re
       ignored, contribution list left changed after a served / a refused per-component evaluation).  The exported
       behaviours carry every sequence of entry points, the walks change the entry point between evaluations, the
       model-level runs of binding A compare and bin every spectrum of every entry point.
+Length of the computed grid (round 4, spec/MC_GridLength.tla, harness/fx_c13len.py): "does not depend on which other wavenumbers
+      are computed" also means: not on HOW MANY, nor on where a point sits inside the computed grid.  Design level: a per-point
+      kernel whose implementation is selected from the shape of the computed grid (below / from / exactly K points, the
+      remainder of a K-wide kernel, the end points) is REFUTED for every K (one TLC run, -continue: every slip violates
+      SlipIndependent) and every such slip is SEPARATED by the exported requests (SlipSeparated) -- which needs a native
+      grid longer than every threshold (150 / 300 points) and clips of EVERY length 1..N-1; the 20-point grids of the
+      history alphabets separate nothing above 20 (expected counterexample).  Binding A: every exported request (every
+      length, at the low end / inside / at the high end of the native grid; two bin centres anywhere, or native points
+      themselves) on long-lived optically thin emission / direct-image / transmission models, model() and the
+      per-component entry points, against the full native computation of a fresh model at 1e-12 (rounding of per-point
+      arithmetic; the exp(-10) licence exists only where a layer is saturated at that wavenumber, nowhere here).
+      The random band/window spectra of the saturation binding also run on native grids of 70-140 points.
 """
 import random
 import re
@@ -641,11 +653,12 @@ def vector_case(vec, rng, model):
     return calibrated_case(model, nat, rows, req, rng, label, nlayers=nlayers, ref=ref, temps=temps, how=how, src=src, rayleigh_at=ray, compo=compo)
 
 
-def random_case(rng, model, quick):
+def random_case(rng, model, quick, long=False):
     """band / window spectra on a constant-resolution-like grid: molecular absorption (one or two molecules on
     different grids) followed or preceded by a user-defined contribution, CIA and the real Rayleigh scattering;
     a window around the most transparent / most opaque point, a random sub-range, or an observation."""
-    npts = rng.randint(30, 60 if quick else 110)
+    # (long: a native grid beyond the usual size thresholds of vectorised kernels, restricted to a short window)
+    npts = rng.randint(70, 140) if long else rng.randint(30, 60 if quick else 110)
     lo = rng.choice([400.0, 1000.0, 4000.0])
     nat = [float(x) for x in np.geomspace(lo, lo * rng.choice([1.5, 3.0, 7.0]), npts)]
     lx = np.log(np.asarray(nat))
@@ -933,7 +946,7 @@ def run_saturation(ctx, results, q):
                 ncase += 1
     nrand = 0
     for i in range(16 if q else 80):
-        case = random_case(rng, 'transmission' if i % 2 == 0 else 'emission', q)
+        case = random_case(rng, 'transmission' if i % 2 == 0 else 'emission', q, long=(i % 4 == 1 or i % 8 == 2))
         if case is None:
             nskip += 1
             continue
@@ -1175,6 +1188,68 @@ def replay_histories(ctx, vs):
 
 
 # ----------------------------------------------------------------------------
+# the length of the computed grid (spec/MC_GridLength.tla)
+# ----------------------------------------------------------------------------
+
+def len_jobs(tier):
+    return [('len-requests', 'MC_GridLength', 'MC_GridLength_%s.cfg' % tier, 1, None),
+            ('len-slips', 'MC_GridLength', 'MC_GridLength_slips_%s.cfg' % tier, 1, ['-continue'])]
+
+
+def len_alphabet(ctx, req_res, slip_res, add=True):
+    """design level: the documented design is length independent on every exported request; EVERY slip (an implementation
+    chosen from the shape of the computed grid) violates SlipIndependent and none violates SlipSeparated"""
+    from .. import fx_c13len as fl
+    for label, res in (('len-requests', req_res), ('len-slips', slip_res)):
+        if add:
+            ctx.add_tlc(label, res, counts=label == 'len-requests')
+        if res.distinct == 0 or res.depth < 2:
+            raise Machinery('vacuous: no action taken in MC_GridLength (%s)' % label)
+    if req_res.violated:
+        raise Machinery('MC_GridLength violates %s\n%s' % (req_res.violated, req_res.error_trace))
+    rec = slip_res.tagged('ALPHA')
+    if len(rec) != 1:
+        raise Machinery('MC_GridLength (slips) exported %d alphabets' % len(rec))
+    got = re.findall(r'Invariant (\S+) is violated', slip_res.out)
+    nslips = 4 * (int(rec[0]['kmax']) - 1) + 1
+    if set(got) != {'SlipIndependent'} or len(got) != nslips:
+        raise Machinery('MC_GridLength: expected TLC to refute SlipIndependent for each of the %d slips and SlipSeparated for none; violations: %r'
+                        % (nslips, {k: got.count(k) for k in set(got)}))
+    reqs = req_res.tagged('REQ')
+    if len(reqs) < len(rec[0]['nat']):
+        raise Machinery('too few requests exported by MC_GridLength: %d' % len(reqs))
+    return fl, fl.LenAlphabet(rec[0], reqs)
+
+
+def run_lengths(ctx, req_res, slip_res, q):
+    fl, alpha = len_alphabet(ctx, req_res, slip_res)
+    rng = random.Random(ctx.seed * 8191 + 41)
+    neval, inexact, fx = fl.run(ctx, alpha, rng, q)
+    ctx.note('lengths: %d requests exported by MC_GridLength (clips of every length 1..%d of a %d-point native grid); %d evaluations on '
+             'long-lived emission / direct-image / transmission models against %d full native computations of fresh models; '
+             '%d returned a grid other than the documented clip (not prescribed by the statement)'
+             % (len(alpha.reqs), len(alpha.nat_i) - 1, len(alpha.nat_i), neval, fx.nrefs, inexact))
+    ctx.add_sample(dict(length_request=alpha.reqs[len(alpha.reqs) // 2]))
+
+
+def replay_lengths(ctx, vs):
+    done = set()
+    alphas = {}
+    for v in vs:
+        vec = v['vector']
+        key = repr(sorted((k, repr(x)) for k, x in vec.items()))
+        if key in done:
+            continue
+        done.add(key)
+        tier = 'quick' if vec.get('tier_n', 150) <= 150 else 'thorough'
+        if tier not in alphas:
+            rr = {j[0]: run_tlc(j[1], j[2], workers=1, allow_violation=True, extra=j[4]) for j in len_jobs(tier)}
+            alphas[tier] = len_alphabet(ctx, rr['len-requests'], rr['len-slips'], add=False)
+        fl, alpha = alphas[tier]
+        fl.replay_vector(ctx, alpha, vec)
+
+
+# ----------------------------------------------------------------------------
 
 def counterexample_text(res):
     nat = re.findall(r'nat = (<<[^>]*>>)', res.error_trace)
@@ -1208,7 +1283,11 @@ def run(ctx):
                                'window alphabets (uniform and constant-resolution-like 20-point native grids, second molecule on 6-7 '
                                'points) on 6-layer emission / direct-image / transmission models with two contributions (absorption of two '
                                'molecules, Rayleigh); TLC-generated walks (depth 9) over request x temperature x (mixing ratio | entry point)')
-    ctx.assumptions = ['histories: every model object owns its cross-section objects (installed in the OpacityCache singleton through '
+    ctx.bounds['lengths'] = ('clips of EVERY length 1..N-1 of a uniform native grid of N = %d points (low end, inside, high end; two bin '
+                             'centres anywhere or native points themselves as the observation), slips with thresholds / kernel widths '
+                             '2..N; quick: one request per length and model kind, thorough: all' % (150 if q else 300))
+    ctx.assumptions = ['lengths: optically thin fixtures, every operation is per wavenumber: 1e-12 (rounding of vectorised kernels), no licence',
+                       'histories: every model object owns its cross-section objects (installed in the OpacityCache singleton through '
                        'clear_cache / add_opacity for its own evaluations); optically thin fixtures (the licensed cut-off never fires): '
                        'equality to 1e-12 with the full native computation of a freshly built model',
                        'the exp(-10) licence is a per-point slack: a contribution (transmission) or a layer term (emission) may be '
@@ -1244,10 +1323,12 @@ def run(ctx):
                  ('sat-nonvacuous-observation-clip', 'MC_Saturation', 'MC_Saturation_nonvac_obs.cfg', 1, 'NoObsRestriction'),
                  ('export-EX_Saturation_2m.cfg', 'MC_Saturation', 'EX_Saturation_2m.cfg', 1, None),
                  ('export-EX_Saturation_4.cfg', 'MC_Saturation', 'EX_Saturation_4.cfg', 1, None)]
+    jobs += [('len-short-native-grid-refuted', 'MC_GridLength', 'MC_GridLength_short_refuted.cfg', 1, 'SlipSeparated')]
     from concurrent.futures import ThreadPoolExecutor
     pool = ThreadPoolExecutor(max_workers=8)
     hjobs = hist_jobs(t)
     hfuts = {j[0]: pool.submit(run_tlc, j[1], j[2], workers=j[3], allow_violation=True, timeout=1500, extra=j[4]) for j in hjobs}
+    lfuts = {j[0]: pool.submit(run_tlc, j[1], j[2], workers=j[3], allow_violation=True, timeout=1500, extra=j[4]) for j in len_jobs(t)}
     futs = {j[0]: pool.submit(run_tlc, j[1], j[2], workers=j[3], allow_violation=True, timeout=1500) for j in jobs}
     # ---- histories: replayed while the exhaustive TLC jobs are running
     try:
@@ -1258,8 +1339,11 @@ def run(ctx):
         _t(ctx, 'histories done')
         for a in HIST_ALPHABETS:
             check_history_design(ctx, 'history-design-%s' % a, hfuts['history-design-%s' % a].result())
+        # ---- the length of the computed grid
+        run_lengths(ctx, lfuts['len-requests'].result(), lfuts['len-slips'].result(), q)
+        _t(ctx, 'lengths done')
     except BaseException:
-        for f in list(hfuts.values()) + list(futs.values()):
+        for f in list(hfuts.values()) + list(lfuts.values()) + list(futs.values()):
             f.cancel()
         pool.shutdown(wait=True)
         raise
@@ -1310,6 +1394,9 @@ def replay(ctx, violations):
     hist = [v for v in violations if (v['vector'] or {}).get('history') or (v['vector'] or {}).get('kind') in ('hbeh', 'hfull')]
     if hist:
         replay_histories(ctx, hist)
+    lens = [v for v in violations if (v['vector'] or {}).get('kind') == 'len']
+    if lens:
+        replay_lengths(ctx, lens)
     for v in violations:
         vec = v['vector'] or {}
         kind = vec.get('kind')
